@@ -212,7 +212,9 @@ const (
 func (l *evalLog) runaway() bool { return l.nFunc+l.nGrad+l.nHess > l.limit }
 
 // stalled reports whether the last k recorded evaluations were all at the
-// same point.
+// same point up to rounding level (each coordinate within 1e-13*(1+|x|) of the
+// last one: a line search whose interval has collapsed may still creep by one
+// ulp per evaluation for thousands of evaluations before it settles).
 //
 //go:norace
 func (l *evalLog) stalled(k int) bool {
@@ -221,7 +223,16 @@ func (l *evalLog) stalled(k int) bool {
 	}
 	for j := l.n - k; j < l.n-1; j++ {
 		for i := 0; i < l.dim; i++ {
-			if l.xs[j*l.dim+i] != l.xs[(l.n-1)*l.dim+i] {
+			last := l.xs[(l.n-1)*l.dim+i]
+			d := l.xs[j*l.dim+i] - last
+			if d < 0 {
+				d = -d
+			}
+			a := last
+			if a < 0 {
+				a = -a
+			}
+			if !(d <= 1e-13*(1+a)) {
 				return false
 			}
 		}
